@@ -83,6 +83,7 @@ func runC01(c *Collector, r *Rng, thorough bool) {
 	}
 	cfg := BucketCfg{Spell: true, Max: 5, Csig: 1}
 	fail := func(key, desc string, rep map[string]any) { c.Fail("C01/"+key, desc, rep) }
+	bigCfg := BucketCfg{Spell: true, Max: 40, Csig: 1}
 	for _, k := range keys {
 		signer, verifier := k.signer(), k.verifier()
 		// signer / verifier built from a COSE_Key (EC2 and OKP only)
@@ -113,6 +114,10 @@ func runC01(c *Collector, r *Rng, thorough bool) {
 			}
 			haveAlg := r.Chance(2, 3) || len(ext) == 0
 			rep := map[string]any{"alg": k.alg.String(), "key": k.name, "ext": hx(trimTo(ext, 40)), "payload_len": len(payload)}
+			cfg := cfg
+			if i%3 == 1 {
+				cfg = bigCfg // header maps with dozens of entries
+			}
 
 			// --- scripted signer: Sign helper output, its decoding and verification, compared with the model ---
 			{
@@ -404,6 +409,12 @@ func runC03(c *Collector, r *Rng, thorough bool) {
 					c.Fail("C03/errclass", "invalid signature reported with an error other than ErrVerification: "+verr.Error(), map[string]any{"kind": kind, "data": hx(in)})
 				}
 			}
+			body := func(t *W) *W {
+				if tagged {
+					return t.Kids[0]
+				}
+				return t
+			}
 			check("unchanged", data, ext, k, verifier)
 			check("other-key", data, ext, other, other.verifier())
 			if len(ext) > 0 {
@@ -418,16 +429,54 @@ func runC03(c *Collector, r *Rng, thorough bool) {
 				check("byte/"+desc, b, ext, k, verifier)
 			}
 			// structural mutants
-			body := func(t *W) *W {
-				if tagged {
-					return t.Kids[0]
-				}
-				return t
-			}
 			for j := 0; j < 4; j++ {
 				t := base.Clone()
 				desc := mutateTree(r, &t)
 				check("tree/"+desc, t.Ser(), ext, k, verifier)
+			}
+			if i%4 == 0 { // protected header of a boundary length, sent with a wider bstr head than needed
+				for _, target := range []int{23, 24, 255, 256} {
+					hb := cloneHeaders(h)
+					if hb.Protected == nil {
+						hb.Protected = cose.ProtectedHeader{cose.HeaderLabelAlgorithm: k.alg}
+					}
+					mb := &cose.Sign1Message{Headers: hb, Payload: []byte("boundary")}
+					delete(mb.Headers.Protected, int64(4))
+					mb.Headers.RawUnprotected = nil
+					// pad with a kid so that the encoded map has exactly target bytes
+					enc0, err := cose.ProtectedHeader(mb.Headers.Protected).MarshalCBOR()
+					if err != nil {
+						break
+					}
+					w0, _ := refParseFull(enc0)
+					pw := wBstr(w0.Str, -1)
+					if !padProtectedTo(pw, target) {
+						continue
+					}
+					mb.Headers.RawProtected = pw.Ser()
+					mb.Headers.Protected = nil
+					if err := mb.Sign(r, ext, signer); err != nil {
+						continue
+					}
+					var bb []byte
+					if tagged {
+						bb, err = mb.MarshalCBOR()
+					} else {
+						bb, err = (*cose.UntaggedSign1Message)(mb).MarshalCBOR()
+					}
+					if err != nil {
+						continue
+					}
+					tb, perr := refParseFull(bb)
+					if perr != nil {
+						continue
+					}
+					for _, wd := range widthsFor(uint64(target)) {
+						t2 := tb.Clone()
+						body(t2).Kids[0].Width = wd
+						check(fmt.Sprintf("protected-len-%d-head-width-%d", target, wd), t2.Ser(), ext, k, verifier)
+					}
+				}
 			}
 			{ // head widths of payload / signature / protected: verdict must stay valid
 				t := base.Clone()
@@ -553,6 +602,9 @@ func runC07(c *Collector, r *Rng, thorough bool) {
 		}
 		t.RandWidths(r, 1, 2, isEnvelopeHead(kind, t))
 		t.ShuffleMaps(r)
+		if i%5 == 0 {
+			padProtectedTo(p, pick(r, []int{23, 24, 255, 256}))
+		}
 		// protected content is a bstr: re-spell the inner map too
 		if pm, err := refParseFull(p.Str); err == nil && len(p.Str) > 0 {
 			pm.RandWidths(r, 1, 2, nil)
@@ -565,7 +617,7 @@ func runC07(c *Collector, r *Rng, thorough bool) {
 		body.Kids[3] = &W{Maj: 2, Width: pick(r, widthsFor(uint64(len(sig)))), Str: sig}
 		// countersignature (single or list) by the independent implementation, relative to this parent
 		csKey := pick(r, keys)
-		ncs := r.Intn(3)
+		ncs := r.Intn(5)
 		var csItems []*W
 		for j := 0; j < ncs; j++ {
 			cp, cu := genHeadersTree(r, GenCfg{MaxEntries: 2, ValDepth: 1, Tags: true, NoAlg: true}, int64(csKey.alg), true)
